@@ -563,14 +563,19 @@ Definition into_single_keys (k : dkey) : list dkey :=
 Definition num_der_paths (k : dkey) : N :=
   match k with KSingle _ _ => 0 | KXpub _ _ _ _ => 1 | KMulti _ _ ps _ => N.of_nat (length ps) end.
 
-(* IndexChoser(i) *)
-Definition index_choser (i : nat) (k : dkey) : kres dkey :=
+(* IndexChoser(i, n): n is the number of paths every multipath key must have
+   (/repo 4fc1acf3: a key with a different number of paths is a length-mismatch error). *)
+Definition index_choser (i n : nat) (k : dkey) : kres dkey :=
   match k with
-  | KMulti _ _ _ _ => match nth_error (into_single_keys k) i with Some k' => KOk k' | None => KErr ELenMismatch end
+  | KMulti _ _ _ _ =>
+      let keys := into_single_keys k in
+      if negb (Nat.eqb (length keys) n) then KErr ELenMismatch
+      else match nth_error keys i with Some k' => KOk k' | None => KErr ELenMismatch end
   | _ => KOk k
   end.
-(* Descriptor::into_single_descriptors: the count comes from the FIRST multipath key in
-   for_each_key order; then one translation per index, the first error aborts. *)
+(* Descriptor::into_single_descriptors: the count n comes from the FIRST multipath key in
+   for_each_key order; then one translation per index i < n, the first error aborts.
+   (n = 0 would trip `assert!(!descriptors.is_empty())`; DerivPaths is never empty.) *)
 Definition first_multipath_len (ks : list dkey) : option nat :=
   match filter key_is_multipath ks with
   | KMulti _ _ ps _ :: _ => Some (length ps)
@@ -579,7 +584,7 @@ Definition first_multipath_len (ks : list dkey) : option nat :=
 Definition into_single_descriptors (d : desc dkey) : kres (list (desc dkey)) :=
   match first_multipath_len (desc_keys d) with
   | None => KOk [d]
-  | Some n => try_map (fun i => desc_try_map (index_choser i) d) (seq 0%nat n)
+  | Some n => try_map (fun i => desc_try_map (index_choser i n) d) (seq 0%nat n)
   end.
 
 (* The specification's selection of alternative i. *)
